@@ -54,8 +54,9 @@ class Facts(paths.Domain):
     """value = (facts, extra...) ; facts = frozenset of (atom text, truth)."""
 
     def assume(self, atom, truth, v):
+        from ..sym import canon
         facts = v[0]
-        a = norm(atom)
+        a, truth = canon(atom, truth)
         if (a, not truth) in facts:
             return ()
         return ((facts | {(a, truth)},) + v[1:],)
@@ -104,6 +105,12 @@ def _process_tx(ctx, rule):
     return fn, loops[0]
 
 
+def _positive(facts, what) -> bool:
+    from ..sym import ineq, same_ineq
+    want = ineq(f'{what} > 0')
+    return any(same_ineq(ineq(a, t), want) for a, t in facts if ineq(a, t) is not None and ineq(a, t)[0] == '>=0')
+
+
 def _reads_tx_buffer(e) -> bool:
     return any(isinstance(x, ast.Subscript) and dotted(x.value) == 'self.tx_buffer' for x in ast.walk(e))
 
@@ -126,7 +133,7 @@ def credit_guard(ctx):
                 is_buf_target = any(dotted(t) == 'self.tx_buffer' for t in tg)
                 if val is not None and _reads_tx_buffer(val) and not is_buf_target:
                     took = True
-                    if ('self.tx_credits > 0', True) not in facts:
+                    if not _positive(facts, 'self.tx_credits'):
                         ung = True
                 if any(dotted(t) == 'self.tx_credits' for t in tg):
                     if isinstance(node, ast.AugAssign) and isinstance(node.op, ast.Sub) and cv(node.value) == 1:
@@ -220,8 +227,19 @@ def bounds(ctx):
         k = 0
         if isinstance(tk, ast.AugAssign):
             tgt = dotted(tk.target)
-            prev = [s for s in ast.walk(loop) if isinstance(s, ast.Assign) and any(dotted(t) == tgt for t in s.targets) and s.lineno < tk.lineno]
-            pv = prev[-1].value if prev else None
+            # the assignment to the chunk that dominates this take: an earlier sibling in an enclosing block
+            pv = None
+            node = tk
+            while pv is None and node is not loop and getattr(node, '_parent', None) is not None:
+                par = node._parent
+                for blk_name in ('body', 'orelse', 'finalbody'):
+                    blk_ = getattr(par, blk_name, None)
+                    if isinstance(blk_, list) and node in blk_:
+                        for s_ in reversed(blk_[:blk_.index(node)]):
+                            if isinstance(s_, ast.Assign) and any(dotted(t) == tgt for t in s_.targets):
+                                pv = s_.value
+                                break
+                node = par
             if isinstance(pv, ast.Call) and dotted(pv.func) == 'bytes' and pv.args and isinstance(pv.args[0], ast.List):
                 k = len(pv.args[0].elts)
             else:
@@ -353,7 +371,8 @@ def rx_ledger(ctx):
     grant = [r for r in rets if cv(r.value) != 0]
     ok = len(grant) == 1 and _lin_eq(_lin(grant[0].value), {'self.rx_max_credits': 1, 'self.rx_credits': -1})
     g = [(norm(t), pol) for t, pol in paths.flat_guards(grant[0])] if grant else []
-    ok = ok and g in ([('self.rx_credits <= self.rx_credits_threshold', True)], [('self.rx_credits > self.rx_credits_threshold', False)])
+    from ..sym import ineq, same_ineq
+    ok = ok and len(g) == 1 and same_ineq(ineq(g[0][0], g[0][1]), ineq('self.rx_credits <= self.rx_credits_threshold'))
     R.check(ok, rule, f'{DLC}.rx_credits_needed', 'grants rx_max_credits - rx_credits when at or below the threshold, else nothing', 'replenishment grant is not `rx_max_credits - rx_credits` under `rx_credits <= threshold`: the peer may be granted more than the receiver can take, or starve', p.loc(fn))
     try:
         mx = p.module_const('bumble.rfcomm', 'RFCOMM_DEFAULT_MAX_CREDITS')
@@ -420,6 +439,17 @@ def _effects(stmts):
     return out
 
 
+def _first_real_stmt(fn):
+    """first statement that is not a docstring, `pass` or a logging call."""
+    for s_ in fn.body:
+        if isinstance(s_, ast.Pass):
+            continue
+        if isinstance(s_, ast.Expr) and (is_const(s_.value) or (isinstance(s_.value, ast.Call) and (dotted(s_.value.func) or '').split('.')[0] in ('logger', 'logging'))):
+            continue
+        return s_
+    return None
+
+
 def teardown(ctx):
     R, p = ctx.r, ctx.p
     rule = 'C20.teardown'
@@ -480,9 +510,7 @@ def teardown(ctx):
     # state preconditions
     for name, st in (('connect', 'INIT'), ('accept', 'INIT'), ('disconnect', 'CONNECTED'), ('on_sabm_frame', 'CONNECTING')):
         m = p.find(f'{DLC}.{name}')
-        first = m.body[0] if m else None
-        if first is not None and isinstance(first, ast.Expr) and is_const(first.value):
-            first = m.body[1]
+        first = _first_real_stmt(m) if m else None
         ok = isinstance(first, ast.If) and norm(first.test) == f'self.state != DLC.State.{st}' and paths._always_leaves(first.body)
         R.check(ok, rule, f'{DLC}.{name} | precondition', f'only from {st}', f'{name} no longer requires state {st}', p.loc(m) if m else '')
     # multiplexer
